@@ -148,6 +148,12 @@ type Uint64MapBuilder struct {
 }
 
 func NewUint64MapBuilder(bucketBits int, tagBits int) *Uint64MapBuilder {
+	// A bucket header stores the ID without its low bucketBits, shifted left by
+	// tagBits, in 64 bits: fewer bucket bits than tag bits would lose the top
+	// bits of the ID.
+	if bucketBits < tagBits {
+		bucketBits = tagBits
+	}
 	return &Uint64MapBuilder{
 		Layout: Uint64MapLayout{
 			BucketBits: bucketBits,
